@@ -97,7 +97,8 @@ def gen_cases(tier):
             for vbs in enumerate_vbs(nmax):
                 yield {"driver": "split", "cfg": cfg.describe(), "op": op, "vbs": vbs, "report": False}
             if cfg.version == "v3":
-                yield {"driver": "split", "cfg": cfg.describe(), "op": op, "vbs": [], "report": True}
+                for rr in ("echo", "zero", "other"):
+                    yield {"driver": "split", "cfg": cfg.describe(), "op": op, "vbs": [], "report": True, "report_rid": rr}
     for driver in ("sync", "async"):
         for cfg in (Cfg("v1"), Cfg("v2c"), Cfg("v3"), Cfg("v3", auth=2, priv=2)):
             for op in ("get", "get_many"):
@@ -107,14 +108,16 @@ def gen_cases(tier):
                     yield {"driver": driver, "cfg": cfg.describe(), "op": op, "vbs": vbs, "report": False}
                 yield {"driver": driver, "cfg": cfg.describe(), "op": op, "vbs": [], "report": False, "silent": True}
                 if cfg.version == "v3":
-                    yield {"driver": driver, "cfg": cfg.describe(), "op": op, "vbs": [], "report": True}
+                    for rr in ("echo", "zero"):
+                        yield {"driver": driver, "cfg": cfg.describe(), "op": op, "vbs": [], "report": True, "report_rid": rr}
 
 
 def build_reply(cfg, req, case):
     vbs = resolve(case["vbs"])
     if case.get("report"):
         vb = [((1, 3, 6, 1, 6, 3, 15, 1, 1, 4, 0), values.v_unsigned("counter32", 3).tlv)]
-        return drivers.reply_for(cfg, req, vb, pdu_tag=rb.PDU_REPORT, flags=0), vbs
+        rid = {"echo": None, "zero": 0, "other": (req.request_id + 12345) & 0x7FFFFFFF}[case.get("report_rid", "echo")]
+        return drivers.reply_for(cfg, req, vb, pdu_tag=rb.PDU_REPORT, flags=0, request_id=rid), vbs
     return drivers.reply_for(cfg, req, [(o, v.tlv) for o, v in vbs]), vbs
 
 
@@ -188,7 +191,7 @@ def signature(case, exp, out):
         case["driver"],
         Cfg.from_desc(case["cfg"]).name,
         case["op"],
-        "report" if case.get("report") else ("silent" if case.get("silent") else "n=%d:%s" % (len(case["vbs"]), kinds)),
+("report-rid-" + case.get("report_rid", "echo")) if case.get("report") else ("silent" if case.get("silent") else "n=%d:%s" % (len(case["vbs"]), kinds)),
         "" if not any(c == "dup" for _, c in case["vbs"]) else ":dup",
         out.exc_name if out.kind == "exc" else "value",
         exp[1] if exp[0] == "exc" else "value",
